@@ -17,7 +17,8 @@ OPS2 = [  # (spec index, scheme expression template)
 ]
 OPS2 = OPS2 + [(9, "(expt {a} {b})")][:0]
 OPS1 = [(0, "(abs {a})"), (1, "(- {a})"), (2, "(exact-integer-sqrt {a})"), (3, "(square {a})"),
-        (4, "(even? {a})"), (5, "(odd? {a})"), (6, "(fixnum? {a})")]
+        (4, "(even? {a})"), (5, "(odd? {a})"), (6, "(fixnum? {a})"), (0, "(gcd {a})"), (0, "(lcm {a})"),
+        (0, "(gcd {a} 0)"), (0, "(gcd 0 {a})"), (0, "(lcm {a} 1)"), (0, "(lcm {a} {a} -1)"), (0, "(gcd {a} {a} 0)")]
 
 
 def lattice(rng, n_random, maxbits=400):
@@ -352,10 +353,11 @@ def zhex(z):
 
 def run(ctx):
     n_in, n_out = (4000, 6000) if not ctx.thorough else (40000, 120000)
-    ctx.cov["rule"] = ("inner: word arrays (boundary lattice incl. carries across all-ones words, spare high zero words, unequal lengths) "
-                       "fed to the C digit functions and the extracted model, compared word for word; outer: operand tuples over the "
-                       "boundary lattice x every operation through the Scheme API vs the extracted Z spec; a case is non-trivial when "
-                       "at least one operand is a bignum (|x| >= 2^62) and distinct by (op, operands)")
+    ctx.cov["rule"] = ("inner: operands built word by word (boundary lattice incl. carries across all-ones words, spare high zero words, "
+                       "unequal lengths, fixnum limits, factor pairs of the fixnum limits, near-multiples, reduced fractions with halves) fed to "
+                       "40 C functions / VM opcodes and to the extracted model, compared word for word; outer: corpus, then operand tuples "
+                       "over the boundary lattice x every operation through the Scheme API vs the extracted Z/Q spec; a case is "
+                       "non-trivial when at least one operand is a bignum (|x| >= 2^62) or a ratio, distinct by (op, operands)")
     d = ctx.build("default")
     # (G) constants of the source tree -> coq/Gen/C04_Consts.v (checked against the models' literals by
     # C04/ConstsCheck.v, theorem constants_match_source)
@@ -432,8 +434,12 @@ def run(ctx):
     ctx.sample(dict(kind="outer", expr=cases[-1][1], spec=so[-1], impl=io[-1]))
     ctx.assume("flonum arithmetic, transcendental functions and complex numbers are outside this check")
     ctx.assume("expt on two fixnums with a result below 2^62/1000 goes through libm pow() and round() (eval.c:1860-1873): covered by the outer correspondence only")
-    ctx.trust("ratio operations (sexp_ratio_*), sexp_ratio_normalize, gcd/lcm (Scheme code in init-7.scm), exact-integer-sqrt's Newton loop and number printing of fixnums are tied to the Z/Q spec by the outer correspondence only (no model)")
-
+    ctx.trust("gcd / lcm / modulo / floor/ / truncate/ / exact-integer-sqrt wrappers (Scheme code in init-7.scm, eval.c), number->string for "
+              "radix != 10 (Scheme loop over quotient/remainder), printing of fixnums and exact<->inexact conversion are tied to the Z/Q spec by "
+              "the outer correspondence only (no model); string->number is compared for radix <= 16 only (R7RS: 2, 8, 10, 16)")
+    ctx.assume("termination of the Newton loop of sqrt and of the ratio wrappers, and any bound on the number of rounds of quot_rem / "
+               "Karatsuba, are not proved (existence of a fuel is, for quot_rem, Karatsuba, expt, Euclid, ratio_normalize)")
+    ctx.note("absence of operand mutation is checked (operand snapshots in the inner harness, operands re-compared in every outer case), not proved")
 
 DIG = "0123456789abcdefghijklmnopqrstuvwxyz"
 # factor pairs whose product lands exactly on / next to the fixnum limits (the overflow test of the fast paths)
